@@ -216,7 +216,10 @@ func (u *uploader) ListParts(bucket, object string, uploadID UploadID, marker in
 	}
 
 	var cnt int64
-	for partNumber, part := range mpu.parts[marker:] {
+	// The marker is a part number, not an offset: iterate over the real part
+	// numbers from the marker onwards (nothing, if it is beyond the last part).
+	for partNumber := marker; partNumber < len(mpu.parts); partNumber++ {
+		part := mpu.parts[partNumber]
 		if part == nil {
 			continue
 		}
